@@ -94,7 +94,7 @@ def gen(ctx):
             labels.append(f"{kind}{rid}:" + ",".join(specs))
             exp[rid] = "ok[" + ",".join(want) + "]"
             frames.append(lines)
-            labels += rng.choice([[], ["S*"], ["S*", "D0"], ["t101"], ["N:" + hexs("player")], ["D3"]])
+            labels += rng.choice([[], ["S*"], ["S*", "D0"], ["t101"], ["N:" + hexs("player")], ["D3"], ["t31000"], ["t29000", "t2000"], ["S*", "t3600000"], ["t61000", "S*"]])
             if rng.random() < 0.15 and n >= 1:
                 # the caller gives up (timeout in the application) while its list is queued or in flight; the next list must still pair with its own frames
                 labels += rng.choice([[], ["S*"]]) + [f"x{rid}"]
